@@ -38,7 +38,10 @@ cache or a timeout "for speed" or "for robustness" was welcome), the ninth to br
 by a robustness or performance feature that involves time or parallelism (time-outs, deadlines,
 retries with back-off, worker pools sized by `runtime.NumCPU()`, loops split across goroutines),
 the tenth to failure-and-recovery paths (something fails or is aborted - a session, an OT batch, a
-parse, a compilation, a Join - and the same process, object or connection is used again).
+parse, a compilation, a Join - and the same process, object or connection is used again), the
+eleventh to flow control (fine on generously buffered transports, broken on synchronous or
+tiny-buffer ones) and to aliasing and retention (a value returned to or passed by the caller
+shares memory with library state).
 All %d changes were
 confirmed by `bin/confirm-seeded` (patch applies to HEAD; `go build ./...`; `go test` of every
 package except the root passes; the demonstration fails with the change and passes without it) and
@@ -74,6 +77,10 @@ receive after a read error; call `Streaming.Garble` again after it failed; `Mul`
 `Mul` that failed on a size disagreement plus a read error). A check that demanded those was
 built once (C11) and raised an alarm on the unchanged tree at its first run; it was withdrawn
 (section 7). Their metas carry `not_caught` and `bin/seeded-sweep` skips them.
+The eleventh wave: eleven caught at once (transport capacities 0, 1 and 16 bytes, fragmenting
+reads, second runs and sessions whose results are judged only after everything else has
+happened were all there), three after an extension (a caller that edits what it was given, a
+caller that reuses its result buffer, results of 65 thousand bits and more).
 
 ''' % (ordn[len(waves) - 1].capitalize(), len(rows), len(own), len(missed), len(rows), per_wave, ', '.join(m['name'] for m in notcaught))
 out += '''| change | property | what was changed | needs | clause that fires | missed at first? |
@@ -170,6 +177,14 @@ What the misses taught (kept as rules for the workloads):
   judged, by the unchanged oracle, and only where the library itself supports carrying on (a shared
   COT is bound to its first connection: re-initialising it after a failure was a slip of the
   harness, found on the unchanged tree before it was committed).
+
+* What the caller holds is the caller's: it may keep a result across later calls, edit it in
+  place, pass a buffer it has used before (C14-k, C15-k, C20-k). Results are judged after the
+  whole run, callers scribble over what they got and over their own arguments between sessions,
+  and a second call must not care.
+* Buffers have two sides: a result wider than every buffer between the parties deadlocks a
+  reply-as-you-read loop (C05-k). (And the generator must not be quadratic in the compiler: the
+  first wide-result family cost 5 GB per case and killed the shrinking worker.)
 
 Own mutants (`/verif/mutants/*.diff`; `revert-<commit>` is a `fix:` commit reversed): ''' + ', '.join(own) + '''.
 
